@@ -275,18 +275,32 @@ def units():
             Unit("update_mu_boundary", U + "update_mu_boundary", run_density, props=["C01"], timeout=600),
             Unit("injection and compatibility lemmas", "lemmas over the C03 stencil contracts", run_lemmas, props=["C01"], timeout=300),
             Unit("TDGLSolver.__init__", U + "__init__ + tdgl.device.device:Device.Bc2/A0/K0", lambda m=None: ic.run_init(m, prefixes=("C01.",)), props=["C01"], timeout=900),
+            Unit("Device.terminal_info", "tdgl.device.device:Device.terminal_info", _terminal_info, props=["C01", "C06"], timeout=300),
             Unit("update[no screening, static A]", U + "update", _upd(False, False), props=["C01"], timeout=900),
             Unit("update[no screening, dynamic A]", U + "update", _upd(False, True), props=["C01"], timeout=900),
             Unit("update[screening, static A]", U + "update", _upd(True, False), props=["C01"], timeout=900),
             Unit("check_total_current[float64 acceptance, bounded]", "tdgl.solver.solver:validate_terminal_currents", run_accept_fp, props=["C01"], timeout=600, kind="bounded")]
 
 
+def _terminal_info(m=None):
+    """the terminal length that turns a requested current into a boundary current density (shared unit with C06): the length of the covered
+    boundary edges in length units of the CURRENT mesh and coherence length"""
+    from checks import c06
+    return c06.run_terminal_info(m)
+
+
 def replay_scope(unit, obl):
     """the native replay picks its witness by obligation family"""
+    if unit == "Device.terminal_info":
+        return "terminal_info"
     n = (obl or {}).get("name", "")
     return "accept" if "accept" in n else ("requested" if any(w in n for w in ("requested", "J_scale", "density")) else "conservation")
 
 
 def replay(unit, obl):
     from checks import c01_native
+    if unit == "Device.terminal_info":
+        from checks import c06
+        r = c06.replay_terminal_info(obl)
+        return r if r.get("confirmed") else c01_native.replay(unit, dict(obl or {}, name="C01.requested_current"))
     return c01_native.replay(unit, obl)
